@@ -1,5 +1,6 @@
 import GqlVerif.Props.C19
 import GqlVerif.Proofs.C19Composed
+import GqlVerif.Proofs.C19Tables
 open GqlVerif.C19
 #print axioms cli_options_map
 #print axioms cli_options_refused
@@ -36,3 +37,5 @@ open GqlVerif.C19
 #print axioms GqlVerif.C19C.parseVisibility_table
 #print axioms GqlVerif.C19C.spells_pub
 #print axioms GqlVerif.C19C.cli_flag_tables
+-- the CLI model's strategy parser is the table regenerated from deprecation.rs (docs/REVIEW_4.md finding 2)
+#print axioms GqlVerif.C19T.cli_parseDeprecation_is_table
